@@ -182,6 +182,12 @@ def run(ctx, anchors=None):
     if not ver_twin:
         raise AnalysisBroken("batch twin VerifyTaprootCommitment(control, program, tapleaf_hash) not found")
     ver_twin = ver_twin[0]
+
+    from . import common as _cm
+    _cm.require_names(ctor, ["m_k", "m_p", "m_q", "control", "program", "script", "m_tapleaf_hash"], "R05.1")
+    _cm.require_names(it, ["m_k", "m_i", "m_path_len", "m_control", "node", "res", "m_q", "m_p"], "R05.1")
+    _cm.require_names(root_twin, ["k", "node", "control", "path_len", "i"], "R05.1")
+    _cm.require_names(ver_twin, ["p", "q", "control", "program", "merkle_root"], "R05.1")
     # ---- tagged hashers
     tags = {"HASHER_TAPLEAF": "TapLeaf", "HASHER_TAPBRANCH": "TapBranch", "HASHER_TAPTWEAK": "TapTweak", "HASHER_TAPSIGHASH": "TapSighash"}
     for name, tag in sorted(tags.items()):
